@@ -54,6 +54,9 @@ Templates == <<
   <<F("x","lamb"), F("=>","lama"), F("p","wordb"), F("and","worda"), F("q","wordb"), F("or","worda"), F("r","")>>,
   <<F("l","wordb"), F("where","worda"), F("x","lamb"), F("=>","lama"), F("x","sym"), F(">","sym"), F("2","wordb"), F("or","worda"), F("x","sym"), F("<","sym"), F("0","")>>,
   <<F("(","lamp"), F("x","lamp"), F(")","lamb"), F("=>","lama"), F("not","nota"), F("x","sym"), F("??","sym"), F("p","wordb"), F("and","worda"), F("-","tight"), F("x","sym"), F(".<","sym"), F("1","")>>,
+  \* optional and rest parameters: the marker may stand apart from the name
+  <<F("(","lamp"), F("x","lamq"), F("?","recbc"), F(",","lamp"), F("...","lamq"), F("r","lamp"), F(")","lamb"), F("=>","lama"), F("x","sym"), F("??","sym"), F("r","")>>,
+  <<F("y","lamq"), F("?","lamb"), F("=>","lama"), F("[","listo"), F("y","listo"), F("]","")>>,
   \* number tokens against the operators that begin with a dot
   <<F("2","sym"), F(".==","sym"), F("b","sym"), F("+","sym"), F("1_000","sym"), F(".<","sym"), F("3","sym"), F(".!=","sym"), F("0.5","sym"), F(".>=","sym"), F("7","")>>
 >>
